@@ -3,13 +3,551 @@
 package wdsim
 
 import (
+	"bufio"
+	"bytes"
+	"context"
+	"fmt"
+	"io"
+	"net/http"
+	"net/http/httptest"
+	"runtime/debug"
+	"sort"
+	"strings"
+	"time"
+
 	webdav "github.com/emersion/go-webdav"
 	"github.com/emersion/go-webdav/vsim/model"
 )
 
-type apiState struct{}
+// ---- transport, mode D -----------------------------------------------------------
 
-func (ex *executor) apiStep(idx int, st *Step)           {}
-func (ex *executor) newMemFS() webdav.FileSystem         { return nil }
-func (ex *executor) memSetup(op SetupOp)                 {}
-func (ex *executor) memSnapshot() map[string]model.Entry { return nil }
+// seqTransport is the simulated wire of the sequential engine: an
+// http.RoundTripper (wrapped in a real http.Client, so redirect handling is
+// real) that re-parses the request the way net/http's server would read it
+// and calls the handler in the calling goroutine.
+type seqTransport struct {
+	ex      *executor
+	idx     int
+	intent  []byte      // bytes the caller means to upload (Create), for the oracles
+	seen    []*Exchange // exchanges of the current API call
+	lastReq *http.Request
+}
+
+// serverRequest turns a client request into what the server side would see.
+func serverRequest(creq *http.Request) (*http.Request, error) {
+	hdr := creq.Clone(creq.Context())
+	hdr.Body = nil
+	hdr.ContentLength = 0
+	hdr.GetBody = nil
+	var b bytes.Buffer
+	if err := hdr.Write(&b); err != nil {
+		return nil, err
+	}
+	sreq, err := http.ReadRequest(bufio.NewReader(&b))
+	if err != nil {
+		return nil, err
+	}
+	sreq.RemoteAddr = "192.0.2.1:1234"
+	switch {
+	case creq.Body == nil || creq.Body == http.NoBody:
+		sreq.Body = http.NoBody
+		sreq.ContentLength = 0
+	case creq.ContentLength > 0:
+		sreq.ContentLength = creq.ContentLength
+		sreq.Header.Set("Content-Length", fmt.Sprint(creq.ContentLength))
+	default:
+		sreq.ContentLength = -1
+		sreq.TransferEncoding = []string{"chunked"}
+		sreq.Header.Del("Content-Length")
+	}
+	return sreq, nil
+}
+
+type teeBody struct {
+	r   io.ReadCloser
+	buf bytes.Buffer
+	err error
+}
+
+func (t *teeBody) Read(p []byte) (int, error) {
+	n, err := t.r.Read(p)
+	t.buf.Write(p[:n])
+	if err != nil && err != io.EOF {
+		t.err = err
+	}
+	return n, err
+}
+func (t *teeBody) Close() error { return nil }
+
+func (tr *seqTransport) RoundTrip(creq *http.Request) (*http.Response, error) {
+	ex := tr.ex
+	if creq.Body != nil {
+		defer creq.Body.Close()
+	}
+	if err := creq.Context().Err(); err != nil {
+		return nil, err
+	}
+	sreq, err := serverRequest(creq)
+	if err != nil {
+		return nil, fmt.Errorf("vsim transport: request cannot be put on the wire: %w", err)
+	}
+	sreq = sreq.WithContext(creq.Context())
+	var tee *teeBody
+	if creq.Body != nil && creq.Body != http.NoBody {
+		tee = &teeBody{r: creq.Body}
+		sreq.Body = tee
+	}
+	ex.seam.BeginStep(nil)
+	xc := &Exchange{Req: model.Request{Method: sreq.Method, Path: sreq.URL.Path, H: headerMap(sreq)}}
+	ex.log.Addf("  wire %s %q %v", sreq.Method, sreq.RequestURI, sortedHeader(sreq.Header))
+	rec := httptest.NewRecorder()
+	func() {
+		defer func() {
+			if r := recover(); r != nil {
+				xc.Panic = fmt.Sprintf("%v\n%s", r, debug.Stack())
+			}
+		}()
+		ex.h.ServeHTTP(rec, sreq)
+	}()
+	res := rec.Result()
+	rb, _ := io.ReadAll(res.Body)
+	if sreq.Method == "HEAD" || res.StatusCode == 204 || res.StatusCode == 304 {
+		rb = nil
+	}
+	xc.Resp = model.Response{Status: res.StatusCode, H: res.Header, Body: rb}
+	st := &Step{Client: -2, Method: sreq.Method, Target: sreq.RequestURI}
+	for k, v := range sreq.Header {
+		if len(v) > 0 {
+			st.Headers = append(st.Headers, [2]string{k, v[len(v)-1]})
+		}
+	}
+	sort.Slice(st.Headers, func(i, j int) bool { return st.Headers[i][0] < st.Headers[j][0] })
+	if tee != nil {
+		xc.Req.Body = append([]byte(nil), tee.buf.Bytes()...)
+		st.Body = xc.Req.Body
+		if tr.intent != nil {
+			st.Body = tr.intent
+		}
+		if tee.err != nil {
+			xc.Req.BodyBroken = true
+		}
+	}
+	ex.res.Stats.ByMethod[st.Method]++
+	ex.res.Stats.ByStatus[statusClass(xc.Resp.Status)]++
+	ex.res.Stats.SeamCalls += len(ex.seam.Calls)
+	ex.log.Addf("  -> %d %v body=%q", xc.Resp.Status, sortedHeader(xc.Resp.H), clipS(canonBody(&xc.Resp), 300))
+	ex.last = xc
+	ex.noteTag(xc)
+	tr.seen = append(tr.seen, xc)
+	tr.lastReq = sreq
+	ex.judgeExchange(tr.idx, st, xc)
+
+	out := &http.Response{
+		Status: fmt.Sprintf("%d %s", res.StatusCode, http.StatusText(res.StatusCode)), StatusCode: res.StatusCode,
+		Proto: "HTTP/1.1", ProtoMajor: 1, ProtoMinor: 1, Header: res.Header.Clone(),
+		Body: io.NopCloser(bytes.NewReader(rb)), ContentLength: int64(len(rb)), Request: creq,
+	}
+	return out, nil
+}
+
+// ---- API steps -------------------------------------------------------------------
+
+type apiState struct {
+	tr      *seqTransport
+	clients map[string]*webdav.Client // by endpoint
+}
+
+func (ex *executor) client(endpoint string) (*webdav.Client, *seqTransport, error) {
+	if ex.api == nil {
+		ex.api = &apiState{tr: &seqTransport{ex: ex}, clients: map[string]*webdav.Client{}}
+	}
+	if c := ex.api.clients[endpoint]; c != nil {
+		return c, ex.api.tr, nil
+	}
+	hc := &http.Client{Transport: ex.api.tr}
+	c, err := webdav.NewClient(hc, endpoint)
+	if err != nil {
+		return nil, nil, err
+	}
+	ex.api.clients[endpoint] = c
+	return c, ex.api.tr, nil
+}
+
+// resolveName is the model's own resolver of an API name against an endpoint
+// path: absolute names stand for themselves, relative ones are appended to the
+// endpoint path; then RFC 3986 normalisation.
+func resolveName(endpointPath, name string) string {
+	if strings.HasPrefix(name, "/") {
+		return model.Normalise(name).Path
+	}
+	if endpointPath == "" {
+		endpointPath = "/"
+	}
+	return model.Normalise(strings.TrimSuffix(endpointPath, "/") + "/" + name).Path
+}
+
+func endpointPath(endpoint string) string {
+	ref := model.ParseRef(endpoint)
+	if !ref.OK {
+		return "/"
+	}
+	return ref.Path
+}
+
+func sameSecond(a, b time.Time) bool { return a.Unix() == b.Unix() }
+
+// compareInfo: the client's FileInfo must equal the backend's own.
+func (ex *executor) compareInfo(idx int, class, what string, got *webdav.FileInfo, want *webdav.FileInfo) {
+	bad := func(field, msg string) {
+		ex.finding(Violation{Prop: "C05", Clause: "stat:" + field, Class: class, Msg: fmt.Sprintf("%s %q: %s", what, want.Path, msg), Step: idx})
+	}
+	if got.Path != want.Path {
+		bad("path", fmt.Sprintf("client reports path %q, backend %q", got.Path, want.Path))
+	}
+	if got.IsDir != want.IsDir {
+		bad("kind", fmt.Sprintf("client reports collection=%v, backend %v", got.IsDir, want.IsDir))
+		return
+	}
+	if want.IsDir {
+		return
+	}
+	if got.Size != want.Size {
+		bad("size", fmt.Sprintf("client reports size %d, backend %d", got.Size, want.Size))
+	}
+	if !sameSecond(got.ModTime, want.ModTime) && !(want.ModTime.IsZero() && got.ModTime.IsZero()) {
+		bad("modtime", fmt.Sprintf("client reports %s, backend %s", got.ModTime.UTC().Format(time.RFC3339), want.ModTime.UTC().Format(time.RFC3339)))
+	}
+	if got.MIMEType != want.MIMEType {
+		bad("mimetype", fmt.Sprintf("client reports %q, backend %q", got.MIMEType, want.MIMEType))
+	}
+	if got.ETag != want.ETag {
+		bad("etag", fmt.Sprintf("client reports tag %q, backend %q", got.ETag, want.ETag))
+	}
+}
+
+func errText(err error) string {
+	if err == nil {
+		return "nil"
+	}
+	return err.Error()
+}
+
+func (ex *executor) apiStep(idx int, st *Step) {
+	a := st.API
+	cfg := &ex.plan.Config
+	c, tr, err := ex.client(cfg.Endpoint)
+	if err != nil {
+		ex.res.Infra = "cannot create client: " + err.Error()
+		ex.stop = true
+		return
+	}
+	tr.idx, tr.seen, tr.intent, tr.lastReq = idx, nil, nil, nil
+	ctx := context.Background()
+	epPath := endpointPath(cfg.Endpoint)
+	want := resolveName(epPath, a.Name)
+	class := "api " + a.Fn
+	ex.res.Stats.Classes[class]++
+	ex.log.Addf("step %d client=%d api %s(%q dest=%q rec=%v norec=%v noow=%v nilopt=%v) data=%dB writes=%v", idx, st.Client, a.Fn, a.Name, a.Dest, a.Recursive, a.NoRecursive, a.NoOverwrite, a.NilOptions, len(a.Data), a.Writes)
+	bad := func(clause, msg string) {
+		ex.finding(Violation{Prop: "C05", Clause: clause, Class: class, Msg: msg, Step: idx})
+	}
+	// the request must be addressed to exactly the named resource
+	addressed := func() string {
+		if tr.lastReq == nil {
+			return ""
+		}
+		got := model.Normalise(tr.lastReq.URL.Path)
+		if !got.OK || got.Path != want {
+			bad("backend-args:"+a.Fn, fmt.Sprintf("%s(%q) with endpoint %q was sent to %q; the name resolves to %q", a.Fn, a.Name, cfg.Endpoint, tr.lastReq.URL.Path, want))
+		}
+		return tr.lastReq.URL.Path
+	}
+	ex.memBegin()
+	nt := func(kind string) {
+		ex.res.Stats.NonTrivial["C05|"+a.Fn+"|"+kind+"|"+nameClass(a.Name)+"|"+cfg.Store+"|"+cfg.Endpoint]++
+	}
+
+	switch a.Fn {
+	case "Stat":
+		fi, err := c.Stat(ctx, a.Name)
+		ex.log.Addf("  = %s err=%s", infoText(fi), errText(err))
+		sp := addressed()
+		bfi, berr := ex.fs.Stat(ctx, sp)
+		switch {
+		case err != nil && berr == nil:
+			bad("stat:error", fmt.Sprintf("Stat(%q) failed with %v although the backend has the resource", a.Name, err))
+		case err == nil && berr != nil:
+			bad("stat:error", fmt.Sprintf("Stat(%q) succeeded although the backend reports %v", a.Name, berr))
+		case err == nil:
+			ex.compareInfo(idx, class, "Stat", fi, bfi)
+			nt(kindWord(bfi.IsDir))
+		}
+	case "ReadDir":
+		l, err := c.ReadDir(ctx, a.Name, a.Recursive)
+		ex.log.Addf("  = %d entries err=%s", len(l), errText(err))
+		sp := addressed()
+		bl, berr := ex.fs.ReadDir(ctx, sp, a.Recursive)
+		if berr == nil {
+			// the server answers for a non-collection with the resource itself
+			if bfi, e := ex.fs.Stat(ctx, sp); e == nil && !bfi.IsDir {
+				bl = []webdav.FileInfo{*bfi}
+			}
+		}
+		switch {
+		case err != nil && berr == nil:
+			bad("readdir-set", fmt.Sprintf("ReadDir(%q) failed with %v although the backend lists %d entries", a.Name, err, len(bl)))
+		case err == nil && berr != nil:
+			if _, e := ex.fs.Stat(ctx, sp); e != nil {
+				bad("readdir-set", fmt.Sprintf("ReadDir(%q) succeeded although the backend reports %v", a.Name, berr))
+			}
+		case err == nil:
+			wantBy := map[string]*webdav.FileInfo{}
+			for i := range bl {
+				wantBy[bl[i].Path] = &bl[i]
+			}
+			seen := map[string]bool{}
+			for i := range l {
+				g := &l[i]
+				if seen[g.Path] {
+					bad("readdir-duplicate", fmt.Sprintf("ReadDir(%q): %q is listed twice", a.Name, g.Path))
+					continue
+				}
+				seen[g.Path] = true
+				w := wantBy[g.Path]
+				if w == nil {
+					bad("readdir-set", fmt.Sprintf("ReadDir(%q) lists %q, which the backend does not list (backend: %v)", a.Name, g.Path, keysOf(wantBy)))
+					continue
+				}
+				ex.compareInfo(idx, class, "ReadDir entry", g, w)
+				// the path must address the same resource again
+				if rfi, e := ex.fs.Stat(ctx, g.Path); e != nil || rfi.IsDir != w.IsDir {
+					bad("path-not-readdressable", fmt.Sprintf("ReadDir(%q) lists %q, but that path does not address the resource again (%v)", a.Name, g.Path, e))
+				}
+			}
+			for p := range wantBy {
+				if !seen[p] {
+					bad("readdir-set", fmt.Sprintf("ReadDir(%q, recursive=%v) does not list %q", a.Name, a.Recursive, p))
+				}
+			}
+			if len(bl) > 1 {
+				nt(fmt.Sprintf("n=%d,rec=%v", min(len(bl), 5), a.Recursive))
+			}
+		}
+	case "Open":
+		rc, err := c.Open(ctx, a.Name)
+		var data []byte
+		var rerr error
+		if err == nil {
+			data, rerr = io.ReadAll(rc)
+			rc.Close()
+		}
+		ex.log.Addf("  = %d bytes err=%s readerr=%s", len(data), errText(err), errText(rerr))
+		sp := addressed()
+		bfi, berr := ex.fs.Stat(ctx, sp)
+		switch {
+		case berr != nil || bfi.IsDir:
+			if err == nil {
+				bad("open-bytes", fmt.Sprintf("Open(%q) succeeded although the backend has no such file", a.Name))
+			}
+		case err != nil || rerr != nil:
+			bad("open-bytes", fmt.Sprintf("Open(%q) failed (%v / %v) although the backend has the file", a.Name, err, rerr))
+		default:
+			brc, e := ex.fs.Open(ctx, sp)
+			if e == nil {
+				bdata, _ := io.ReadAll(brc)
+				brc.Close()
+				if !bytes.Equal(bdata, data) {
+					bad("open-bytes", fmt.Sprintf("Open(%q) returned %d bytes %q, the backend holds %d bytes %q", a.Name, len(data), clipS(string(data), 24), len(bdata), clipS(string(bdata), 24)))
+				}
+				nt(fmt.Sprintf("size=%d", sizeBucket(len(bdata))))
+			}
+		}
+	case "Create":
+		tr.intent = a.Data
+		before := ex.snap
+		wc, err := c.Create(ctx, a.Name)
+		var werr, cerr error
+		written := 0
+		if err == nil {
+			off := 0
+			for _, n := range a.Writes {
+				if off+n > len(a.Data) {
+					n = len(a.Data) - off
+				}
+				m, e := wc.Write(a.Data[off : off+n])
+				written += m
+				off += n
+				if e != nil {
+					werr = e
+					break
+				}
+			}
+			if werr == nil && off < len(a.Data) {
+				m, e := wc.Write(a.Data[off:])
+				written += m
+				werr = e
+			}
+			cerr = wc.Close()
+		}
+		ex.log.Addf("  = create err=%s write err=%s (%d bytes) close err=%s", errText(err), errText(werr), written, errText(cerr))
+		sp := addressed()
+		if err == nil && cerr == nil && werr == nil {
+			brc, e := ex.fs.Open(ctx, sp)
+			if e != nil {
+				bad("create-bytes", fmt.Sprintf("Create(%q) + Close succeeded but the backend cannot open the file: %v", a.Name, e))
+			} else {
+				bdata, _ := io.ReadAll(brc)
+				brc.Close()
+				if !bytes.Equal(bdata, a.Data) {
+					bad("create-bytes", fmt.Sprintf("Create(%q): wrote %d bytes %q, the backend stores %d bytes %q", a.Name, len(a.Data), clipS(string(a.Data), 24), len(bdata), clipS(string(bdata), 24)))
+				}
+				nt(fmt.Sprintf("size=%d,writes=%d", sizeBucket(len(a.Data)), min(len(a.Writes), 4)))
+			}
+		} else if err == nil && cerr == nil && werr != nil {
+			bad("create-bytes", fmt.Sprintf("Create(%q): Write failed with %v but Close reported success", a.Name, werr))
+		} else if cfg.Store != "memfs" {
+			if d := model.DiffSnap(before, ex.snapshot()); d != "" {
+				bad("create-bytes", fmt.Sprintf("Create(%q) reported failure (%v) but the stored tree changed: %s", a.Name, cerr, d))
+			}
+		}
+		if rec := ex.memLast("Create"); rec != nil && rec.Name != sp {
+			bad("backend-args:Create", fmt.Sprintf("backend Create received name %q, the request addressed %q", rec.Name, sp))
+		}
+	case "Mkdir":
+		err := c.Mkdir(ctx, a.Name)
+		ex.log.Addf("  = err=%s", errText(err))
+		sp := addressed()
+		ex.apiOutcome(idx, class, a, err, tr)
+		if rec := ex.memLast("Mkdir"); rec != nil && rec.Name != sp {
+			bad("backend-args:Mkdir", fmt.Sprintf("backend Mkdir received %q, the request addressed %q", rec.Name, sp))
+		}
+		if err == nil {
+			nt("ok")
+		}
+	case "RemoveAll":
+		err := c.RemoveAll(ctx, a.Name)
+		ex.log.Addf("  = err=%s", errText(err))
+		sp := addressed()
+		ex.apiOutcome(idx, class, a, err, tr)
+		if rec := ex.memLast("RemoveAll"); rec != nil && rec.Name != sp {
+			bad("backend-args:RemoveAll", fmt.Sprintf("backend RemoveAll received %q, the request addressed %q", rec.Name, sp))
+		}
+		if err == nil {
+			nt("ok")
+		}
+	case "Copy", "Move":
+		var err error
+		wantDest := resolveName(epPath, a.Dest)
+		if a.Fn == "Copy" {
+			var o *webdav.CopyOptions
+			if !a.NilOptions {
+				o = &webdav.CopyOptions{NoRecursive: a.NoRecursive, NoOverwrite: a.NoOverwrite}
+			}
+			err = c.Copy(ctx, a.Name, a.Dest, o)
+		} else {
+			var o *webdav.MoveOptions
+			if !a.NilOptions {
+				o = &webdav.MoveOptions{NoOverwrite: a.NoOverwrite}
+			}
+			err = c.Move(ctx, a.Name, a.Dest, o)
+		}
+		ex.log.Addf("  = err=%s", errText(err))
+		sp := addressed()
+		ex.apiOutcome(idx, class, a, err, tr)
+		noRec := a.NoRecursive && !a.NilOptions && a.Fn == "Copy"
+		noOw := a.NoOverwrite && !a.NilOptions
+		if tr.lastReq != nil {
+			// options on the wire
+			h := tr.lastReq.Header
+			if ow := h.Get("Overwrite"); (ow == "F") != noOw || (ow != "T" && ow != "F" && ow != "") {
+				bad("backend-args:"+a.Fn, fmt.Sprintf("%s(no-overwrite=%v) sent Overwrite: %q", a.Fn, noOw, ow))
+			}
+			if d := h.Get("Depth"); a.Fn == "Copy" && ((d == "0") != noRec || (d != "0" && d != "infinity" && d != "")) {
+				bad("backend-args:"+a.Fn, fmt.Sprintf("Copy(no-recursive=%v) sent Depth: %q", noRec, d))
+			}
+			ref := model.ParseRef(h.Get("Destination"))
+			if dn := model.Normalise(ref.Path); !ref.OK || !dn.OK || dn.Path != wantDest {
+				bad("backend-args:"+a.Fn, fmt.Sprintf("%s(dest=%q) with endpoint %q sent Destination %q; the name resolves to %q", a.Fn, a.Dest, cfg.Endpoint, h.Get("Destination"), wantDest))
+			}
+		}
+		if rec := ex.memLast(a.Fn); rec != nil {
+			if rec.Name != sp || model.Normalise(rec.Dest).Path != wantDest || rec.NoOverwrite != noOw || (a.Fn == "Copy" && rec.NoRecursive != noRec) {
+				bad("backend-args:"+a.Fn, fmt.Sprintf("backend %s received (%q, %q, no-recursive=%v, no-overwrite=%v); the caller asked for (%q = %q, %q = %q, no-recursive=%v, no-overwrite=%v)", a.Fn, rec.Name, rec.Dest, rec.NoRecursive, rec.NoOverwrite, a.Name, sp, a.Dest, wantDest, noRec, noOw))
+			}
+		}
+		if err == nil {
+			nt(fmt.Sprintf("norec=%v,noow=%v,nil=%v", a.NoRecursive, a.NoOverwrite, a.NilOptions))
+		}
+	}
+}
+
+// apiOutcome: a mutating call returns nil iff the server answered 2xx.
+func (ex *executor) apiOutcome(idx int, class string, a *APICall, err error, tr *seqTransport) {
+	if len(tr.seen) == 0 {
+		return
+	}
+	st := tr.seen[len(tr.seen)-1].Resp.Status
+	if (err == nil) != (st/100 == 2) {
+		ex.finding(Violation{Prop: "C05", Clause: "result", Class: class, Msg: fmt.Sprintf("%s(%q) returned %v but the server answered %d", a.Fn, a.Name, err, st), Step: idx})
+	}
+}
+
+func kindWord(dir bool) string {
+	if dir {
+		return "coll"
+	}
+	return "file"
+}
+
+func sizeBucket(n int) int {
+	switch {
+	case n == 0:
+		return 0
+	case n < 64:
+		return 1
+	case n < 4096:
+		return 2
+	case n < 32768:
+		return 3
+	case n == 32768:
+		return 4
+	}
+	return 5
+}
+
+func nameClass(n string) string {
+	var cs []string
+	if strings.HasPrefix(n, "/") {
+		cs = append(cs, "abs")
+	} else {
+		cs = append(cs, "rel")
+	}
+	for _, c := range []string{" ", "%", "#", "?", ";", "+", "\"", "<", "&", "\\", ":", "'", "\n", ".."} {
+		if strings.Contains(n, c) {
+			cs = append(cs, c)
+		}
+	}
+	for _, r := range n {
+		if r > 127 {
+			cs = append(cs, "u")
+			break
+		}
+	}
+	return strings.Join(cs, "")
+}
+
+func infoText(fi *webdav.FileInfo) string {
+	if fi == nil {
+		return "<nil>"
+	}
+	return fmt.Sprintf("{%q dir=%v size=%d mod=%s type=%q tag=%q}", fi.Path, fi.IsDir, fi.Size, fi.ModTime.UTC().Format(time.RFC3339), fi.MIMEType, fi.ETag)
+}
+
+func keysOf(m map[string]*webdav.FileInfo) []string {
+	var ks []string
+	for k := range m {
+		ks = append(ks, k)
+	}
+	sort.Strings(ks)
+	return ks
+}
